@@ -56,6 +56,9 @@ def shard(ctx):
 
     prof = StreamProfile(knobs_fn=knobs, script_len=ctx.params["script_len"], templates=templ)
     prof.template_prob = 0.4
+    from ..templates import ALL as _ALL
+
+    prof.rotation = list(_ALL)
     run_stream(ctx, prof, [ForwardMonitor(ctx)])
 
 
